@@ -337,3 +337,62 @@ def _catalogue(ct, tier, seed):
 
 contract('C19.runtime.catalogue', ['optiland/materials/material.py:Material.__init__', 'optiland/materials/base.py:BaseMaterial.from_dict',
                                    'optiland/materials/base.py:BaseMaterial.to_dict'], ['C19'], custom=_catalogue)(lambda c: None)
+
+
+# ---- bounded: floats that are re-derived when a lens is rebuilt must come back bit for bit ---------------------------------------------
+def _polarization(ct, tier, seed):
+    """a lens with a polarization state (amplitudes given un-normalised, as the constructor accepts them) is saved and reloaded, and
+    the reloaded lens saved and reloaded again: every dictionary equals the one it was loaded from, exactly (the symbolic round-trip
+    contracts treat the normalisation Ex / sqrt(Ex^2 + Ey^2) as real arithmetic, where it is idempotent; in floating point it is
+    not unless the code takes care)"""
+    import json as _json
+    import random
+    import time
+    import warnings
+    import numpy as np
+    from optiland.optic import Optic
+    from optiland.rays.polarization_state import PolarizationState
+    warnings.simplefilter('ignore')
+    t0 = time.time()
+    rng = random.Random(seed * 17 + 5)
+    clauses, fails, cases = {}, [], 0
+
+    def note(cid, ok, detail, inputs):
+        c_ = clauses.setdefault(cid, {'paths': 0, 'proved': 0, 'backends': {}, 'failed': [], 'seconds': 0.0, 'bounded': True})
+        c_['paths'] += 1
+        if ok:
+            c_['proved'] += 1
+            c_['backends']['runtime'] = c_['backends'].get('runtime', 0) + 1
+        else:
+            fails.append({'clause': cid, 'draws': inputs, 'note': detail})
+    amps = [(1.0, 0.5), (1.0, 1.0), (0.6, 0.8), (3.0, 4.0), (1.0, 2.0), (0.3, 0.1), (1.0, 0.0), (0.0, 2.0), (1.0, -1.0)]
+    amps += [(round(rng.uniform(-3, 3), 3), round(rng.uniform(0.1, 3), 3)) for _ in range(20 if tier == 'quick' else 400)]
+    for Ex, Ey in amps:
+        L = Optic()
+        L.add_surface(index=0, thickness=np.inf)
+        L.add_surface(index=1, radius=50.0, thickness=4.0, material='N-BK7', is_stop=True)
+        L.add_surface(index=2, radius=-70.0, thickness=60.0)
+        L.add_surface(index=3)
+        L.set_aperture('EPD', 5.0)
+        L.set_field_type('angle')
+        L.add_field(y=0.0)
+        L.add_wavelength(0.55, is_primary=True)
+        L.set_polarization(PolarizationState(is_polarized=True, Ex=Ex, Ey=Ey, phase_x=0.0, phase_y=0.3))
+        d1 = L.to_dict()
+        L2 = Optic.from_dict(_json.loads(_json.dumps(d1)))
+        d2 = L2.to_dict()
+        d3 = Optic.from_dict(_json.loads(_json.dumps(d2))).to_dict()
+        cases += 1
+        inputs = {'Ex': Ex, 'Ey': Ey}
+        note('C19.runtime.reloaded_dictionary_equals_the_saved_one_bit_for_bit_with_a_polarization_state', dict_equal(d2, d1) and dict_equal(d3, d2),
+             'saved %r, reloaded %r, reloaded again %r' % tuple((d_['wavelengths']['polarization']['Ex'], d_['wavelengths']['polarization']['Ey'])
+                                                                    for d_ in (d1, d2, d3)), inputs)
+    return {'contract': ct.name, 'functions': ct.functions, 'props': ct.props,
+            'symbolic': {'clauses': clauses, 'paths': 0, 'errors': [], 'solver_s': 0.0, 'samples': [], 'wd_assumed': [], 'assumed': []},
+            'numeric': {'accepted': cases, 'rejected': 0, 'failures': fails[:10], 'concolic_agree': 0, 'encoder_mismatches': [],
+                        'samples': [{'amplitudes': amps[:9]}]}, 'wall_s': time.time() - t0}
+
+
+contract('C19.runtime.polarization', ['optiland/rays/polarization_state.py:PolarizationState.__init__', 'optiland/rays/polarization_state.py:PolarizationState.to_dict',
+                                      'optiland/rays/polarization_state.py:PolarizationState.from_dict', OP + ':Optic.to_dict', OP + ':Optic.from_dict'],
+         ['C19'], custom=_polarization)(lambda c: None)
